@@ -8,7 +8,11 @@
 //!         "observed":..,"required":..} and a final {"kind":"summary","cases":N,"failing":K}.
 use std::panic;
 
+mod c15;
+mod c17;
 mod c20;
+#[allow(dead_code)]
+mod probe;
 
 pub struct Ctx {
     pub only: Option<String>,
@@ -49,6 +53,8 @@ fn main() {
     let mut ctx = Ctx { only, cases: 0, failing: 0 };
     panic::set_hook(Box::new(|_| {}));
     match args[1].as_str() {
+        "C15" => c15::run(&mut ctx),
+        "C17" => c17::run(&mut ctx),
         "C20" => c20::run(&mut ctx),
         other => {
             eprintln!("no oracle for {}", other);
